@@ -3,7 +3,7 @@
   word accesses "operand,row,word,R|W,8|16" that the model predicts.  vlib/extras.py (C11) compares it with the trace
   of the real code recorded by `valgrind --tool=lackey --trace-mem=yes` on harness/trace_drv.c.
 -/
-import M4ri.Safety
+import M4ri.Safety2
 open M4ri.Safety
 
 def fmt (a : Access) : String :=
@@ -41,6 +41,80 @@ def run (ws : List String) : List Access :=
     | "processrows" =>  -- M hdr; startrow stoprow startcol k fill; then bits per row
       let bits := (as.drop 8).toArray.map (fun s => s.toNat!)
       accProcessRows (hdr (g 0) (g 1) (g 2)) (g 3) (g 4) (g 5) (g 6) (fun r => bits[r]!) (fun r => bits[r]! != 0)
+    | "prowsN" =>   -- N ; M hdr ; phT ; startrow stoprow startcol k fill ; then x_j per row (N per row)
+      let xs := (as.drop 10).toArray.map (fun s => s.toNat!)
+      accProcessRowsN (hdr (g 1) (g 2) (g 3)) (g 0) (g 5) (g 6) (g 7) (g 8) (fun r j => xs[r * g 0 + j]!)
+    | "applyleft" =>   -- nrows ncols phase trans plen mode seed ; then P values
+      let P := (as.drop 7).toArray.map (fun s => s.toNat!)
+      if g 3 = 0 then accApplyPLeft (hdr (g 0) (g 1) (g 2)) (g 4) (fun i => P[i]!)
+      else accApplyPLeftTrans (hdr (g 0) (g 1) (g 2)) (g 4) (fun i => P[i]!)
+    | "colswapfull" => accColSwap (hdr (g 0) (g 1) (g 2)) (g 3) (g 4)
+    | "apright" =>   -- nrows ncols phase start_row start_col notrans plen mode seed ; then L1, P values
+      let P := (as.drop 10).toArray.map (fun s => s.toNat!)
+      accApplyPRightEven (hdr (g 0) (g 1) (g 2)) (g 9) (g 6) (fun i => P[i]!) (g 3) (g 4) (g 5 != 0)
+    | "aprtri" =>   -- nrows ncols phase mode seed ; then L1, P values
+      let P := (as.drop 6).toArray.map (fun s => s.toNat!)
+      accApplyPRightTransTri (hdr (g 0) (g 1) (g 2)) (g 5) (fun i => P[i]!)
+    | "compressl" => accCompressL (hdr (g 0) (g 1) (g 2)) (g 3) (g 4) (g 5)   -- nrows ncols phase r1 n1 r2
+    | "prple" =>   -- N ; M hdr ; phT ; startrow stoprow startcol fill tw ; k_0..k_{N-1} ; then x_j per row (N per row)
+      let N := g 0
+      let ks := ((as.drop 10).take N).map (fun s => s.toNat!)
+      let xs := (as.drop (10 + N)).toArray.map (fun s => s.toNat!)
+      accProcessRowsPle (hdr (g 1) (g 2) (g 3)) ks (g 5) (g 6) (g 7) (fun r j => xs[r * N + j]!)
+    | "a11" =>   -- N ; A hdr ; phT ; start_row stop_row start_col block fill tw ; k_0..k_{N-1} ; then x_j per row
+      let N := g 0
+      let ks := ((as.drop 11).take N).map (fun s => s.toNat!)
+      let xs := (as.drop (11 + N)).toArray.map (fun s => s.toNat!)
+      if N = 1 then accPleA11_1 (hdr (g 1) (g 2) (g 3)) (g 5) (g 6) (g 7) (g 8) (g 11) (fun r => xs[r]!)
+      else accPleA11N (hdr (g 1) (g 2) (g 3)) ks (g 5) (g 6) (g 7) (g 8) (fun r j => xs[r * N + j]!)
+    | "a10" =>   -- A hdr ; start_row start_col addblock k fill ; pivots[0..k) ; then P->values[start_row..+k), bits (i,j), j<i
+      let k := g 6
+      let xs := (as.drop 8).toArray.map (fun s => s.toNat!)
+      accPleA10 (hdr (g 0) (g 1) (g 2)) (g 3) (g 4) (g 5) k (fun i => xs[k + (i - g 3)]!) (fun i => xs[i]!)
+        (fun i j => xs[2 * k + i * (i - 1) / 2 + j]! != 0)
+    | "mtple" =>   -- A hdr ; T hdr ; r writecol k knar readcol fullrank fill ; then inc list
+      let inc := (as.drop 13).toArray.map (fun s => s.toNat!)
+      accMakeTablePle (hdr (g 3) (g 4) (g 5)) (g 6) (g 7) (g 8) (g 9) (g 10) (g 11 != 0) (fun i => inc[i]!)
+    | "tk_64x64" => acc64x64 (some 0) (some 1) ⟨g 6, g 7⟩ ⟨g 8, g 9⟩
+    | "tk_64x64_2" => acc64x64_2 (some 0) (some 1) ⟨g 6, g 7⟩ ⟨g 10, g 11⟩ ⟨g 8, g 9⟩ ⟨g 12, g 13⟩
+    | "tk_lt64x64" => accLt64x64 (some 0) (some 1) ⟨g 6, g 7⟩ ⟨g 8, g 9⟩ (g 10)
+    | "tk_64xlt64" => acc64xlt64 (some 0) (some 1) ⟨g 6, g 7⟩ ⟨g 8, g 9⟩ (g 10)
+    | "tk_le8" => accLe8 (some 0) (some 1) ⟨g 6, g 7⟩ ⟨g 8, g 9⟩ (g 10) (g 11)
+    | "tk_le16" => accLe16 (some 0) (some 1) ⟨g 6, g 7⟩ ⟨g 8, g 9⟩ (g 10) (g 11)
+    | "tk_le32" => accLe32 (some 0) (some 1) ⟨g 6, g 7⟩ ⟨g 8, g 9⟩ (g 10) (g 11)
+    | "tk_le64" => accLe64 (some 0) (some 1) ⟨g 6, g 7⟩ ⟨g 8, g 9⟩ (g 10) (g 11)
+    | "tk_small" => accSmall (some 0) (some 1) ⟨g 6, g 7⟩ ⟨g 8, g 9⟩ (g 10) (g 11) (g 12)
+    | "tk_base" => accTransposeBase ⟨g 6, g 7⟩ ⟨g 8, g 9⟩ (g 10) (g 11)
+    | "tk_notsmall" => accTransposeNotsmall (g 10 + g 11) ⟨g 6, g 7⟩ ⟨g 8, g 9⟩ (g 10) (g 11) (g 12)
+    | "tk_top" => accTransposeTop ⟨g 6, g 7⟩ ⟨g 8, g 9⟩ (g 10) (g 11) (g 12)
+    | "transpose" =>   -- A hdr (nrows ncols phase) kindA ; phaseD kindD ; then X: dangerA dangerD.  Temporaries (operands 2, 3) are not recorded
+      (accMzdTranspose (hdr (g 0) (g 1) (g 2)) (g 6 != 0) (g 7 != 0)).filter (fun a => a.op < 2)
+    | "trsmsub" =>   -- upper ; U hdr ; B hdr ; start_row k fill ; then the k x k bits of U at (start_row, start_row), row-major
+      let bits := (as.drop 10).toArray.map (fun s => s.toNat!)
+      let u := fun (r c : Nat) => bits[(r - g 7) * g 8 + (c - g 7)]! != 0
+      if g 0 = 1 then accTrsmUpperLeftSubmatrix (hdr (g 4) (g 5) (g 6)) (g 7) (g 8) u
+      else accTrsmLowerLeftSubmatrix (hdr (g 4) (g 5) (g 6)) (g 7) (g 8) u
+    | "mktrtri" =>   -- M hdr ; T hdr ; r c k startcol ; then inc list
+      let inc := (as.drop 10).toArray.map (fun s => s.toNat!)
+      accMakeTableTrtri (hdr (g 3) (g 4) (g 5)) (g 6) (g 7) (g 8) (g 9) (fun i => inc[i]!)
+    | "trsmrus" =>   -- upper ; nU phU ; B hdr ; k fill ; then for kq = 1..k: inc[kq][0..2^kq) ord[kq][0..2^kq) ; then the n x ⌈n/64⌉ words of U
+      let xs := (as.drop 8).toArray.map (fun s => s.toNat!)
+      let n := g 1
+      let k := g 6
+      let inc := fun (kq i : Nat) => xs[2 * (2 ^ kq - 2) + i]!
+      let ord := fun (kq i : Nat) => xs[2 * (2 ^ kq - 2) + 2 ^ kq + i]!
+      let base := 2 * (2 ^ (k + 1) - 2)
+      let u := fun (r c : Nat) => (xs[base + r * ((n + 63) / 64) + c / 64]! >>> (c % 64)) % 2 != 0
+      let x := fun (kq col j : Nat) =>
+        let v := (List.range kq).foldl (fun acc b => acc + (if u j (col + b) then 2 ^ b else 0)) 0
+        ((List.range (2 ^ kq)).find? (fun i => ord kq i == v)).getD 0     -- L[ord[i]] = i
+      if g 0 = 1 then accTrsmUpperLeftRussian (hdr (g 3) (g 4) (g 5)) k u inc x
+      else accTrsmLowerLeftRussian (hdr (g 3) (g 4) (g 5)) n k u inc x
+    | "trtrisub" =>   -- A hdr ; pivot_r elim_r k fill ; then the bits in the order they are read
+      let xs := (as.drop 7).toArray.map (fun s => s.toNat!)
+      let off := fun (i : Nat) => (List.range (i - g 3)).foldl (fun acc d => acc + (g 3 + d - g 4)) 0
+      let u := fun (j i : Nat) => xs[off i + (j - g 4)]! != 0
+      accTrtriUpperSubmatrix (hdr (g 0) (g 1) (g 2)) (g 3) (g 4) (g 5) u
     | _ => []
 
 partial def loop (h : IO.FS.Stream) : IO Unit := do
